@@ -22,6 +22,7 @@ is computed from variables outside the influence of `x`.
 reference interpreter.
 -/
 import Circomspect.Lemmas.TaintLemmas
+import Circomspect.Lemmas.CfgReachLemmas
 
 namespace Circomspect.C09
 open Circomspect Taint
@@ -53,6 +54,25 @@ theorem C09_closure_repair_same (es : List (V × V)) (k k' : Nat) (x : V) (r r' 
 /-- non-vacuity: on a cycle with a tail both loops return, and return the same four variables -/
 example : closeLoop [(1, 2), (2, 3), (3, 1), (3, 4)] 9 [1] [] = some [1, 2, 3, 1, 4]
     ∧ workLoop [(1, 2), (2, 3), (3, 1), (3, 4)] 9 [1] [] = some [4, 3, 2, 1] := by
+  constructor <;> rfl
+
+/-- the region of one side of an if statement (`get_true_branch`, `get_false_branch`; the taint analysis lets the variables of the
+    condition taint everything assigned there): with `es` the edges of the CFG and `df` the dominance frontier, it is the first
+    block of the side and everything it reaches when that block has an empty frontier, and otherwise the blocks between the first
+    block and a block of its frontier (`Model/CfgReach.lean`, compared with the real regions of every generated definition) -/
+theorem C09_branch_region (es : List (Nat × Nat)) (df : Nat → List Nat) (start x : Nat) :
+    x ∈ CfgReach.branch es df start ↔
+      (df start = [] ∧ Reach es start x) ∨ (∃ e, e ∈ df start ∧ Reach es start x ∧ Reach es x e ∧ x ≠ e) :=
+  CfgReach.mem_branch es df start x
+
+/-- an interval of the CFG: reachable from the start, reaching the end, and not the end -/
+theorem C09_interval (es : List (Nat × Nat)) (s e x : Nat) :
+    x ∈ CfgReach.getInterval es s e ↔ Reach es s x ∧ Reach es x e ∧ x ≠ e :=
+  CfgReach.mem_getInterval es s e x
+
+/-- non-vacuity: a diamond 0 → {1, 2} → 3 → 4 with frontier {3} for both sides -/
+example : CfgReach.trueBranch [(0, 1), (0, 2), (1, 3), (2, 3), (3, 4)] (fun i => if i = 1 ∨ i = 2 then [3] else []) 1 = [1]
+    ∧ CfgReach.falseBranch [(0, 1), (0, 2), (1, 3), (2, 3), (3, 4)] (fun i => if i = 1 ∨ i = 2 then [3] else []) 1 (some 2) = [2] := by
   constructor <;> rfl
 
 /-- the sink set contains every input/output signal, every variable read by a condition, a
